@@ -27,9 +27,34 @@ const ASSUME: &[&str] = &[
 ];
 
 pub fn meta(prop: &str) -> Meta {
-    let rule = match prop {
-        "C21" => "each scenario is one generated DFIR program (3-14 operators over the catalogue, random persistence per input, 1-3 external inputs, 1-3 sinks) compiled by rustc; each run draws an arrival schedule (1-7 driver steps; per step which items of which input have arrived, silent channels, starved channel, bursts, run_tick_sync vs run_available_sync), executes the compiled program and compares every sink's per-tick output with the reference interpreter. Distinct = distinct hash of (program, realised decision trace); non-trivial = at least one item reached a sink AND at least one non-benign schedule decision (empty tick, burst, starved channel, run_available step) fired.",
-        _ => "each scenario is one generated DFIR program compiled by rustc; each run draws an arrival schedule and compares the compiled program's per-tick sink outputs and tick counts with the reference interpreter. Distinct = distinct hash of (program, realised decision trace); non-trivial = at least one item reached a sink AND at least one non-benign schedule decision fired.",
+    const SCHED: &str = " Each run draws an arrival schedule (1-7 driver steps; per step which items of which external input have arrived, silent channels, one starved channel, bursts, `run_tick_sync` vs `run_available_sync`), executes the compiled program(s) and compares, per tick and per sink, with the reference interpreter (sequence equality where DFIR specifies the order, multiset equality otherwise), plus the tick counter after every driver call and a per-tick watchdog clock. Distinct = distinct hash of (program, realised decision trace); non-trivial = at least one item reached a sink AND at least one non-benign schedule decision (empty tick, burst, starved channel, run_available step) fired.";
+    let (head, probes): (&str, &'static [&'static str]) = match prop {
+        "C21" => (
+            "Each scenario is one generated DFIR program (3-14 operators drawn from the whole catalogue: map/filter/filter_map/flat_map/flatten/inspect/identity, persist, unique, multiset_delta, sort, sort_by_key, enumerate, fold, reduce, fold_no_replay, reduce_no_replay, fold_keyed, reduce_keyed, scan, defer_tick, defer_tick_lazy, union, chain, chain_first_n, join, join_multiset, cross_join, cross_join_multiset, anti_join, difference, zip, zip_longest, cross_singleton, defer_signal, tee, partition, demux_enum, unzip; every legal 'tick/'static combination per input; 1-3 external inputs, 0-1 source_iter, 1-3 sinks), compiled by rustc.",
+            &["static_state_kept", "defer_delivered"],
+        ),
+        "C22" => (
+            "Each scenario is one generated DFIR program plus 2-3 semantics-preserving shape variants of it (extra identity()/map(|x| x), single-input union(), single-output tee(), union with an empty null() input, tee with a leg into null(), shuffled statement order), all compiled into the same binary and driven with the same recorded schedule; every variant must agree with the reference interpreter (hence pairwise). All variants are first compiled with the dfir_lang pipeline as a library: either all are accepted or all rejected (a split is a scenario of its own that re-runs the pipeline).",
+            &["static_state_kept"],
+        ),
+        "C23" => (
+            "Each scenario is one generated DFIR program built around a blocking consumer (anti_join neg, difference neg, fold, reduce, sort, persist, zip, cross_singleton over a fold, a `#singleton` reference to a fold, join, fold_keyed) whose blocking input is produced by a random same-tick pipeline of depth 1-6 (maps, filters, unions with other sources, tees, nested blocking operators).",
+            &["static_state_kept"],
+        ),
+        "C24" => (
+            "Each scenario is one generated DFIR program: a chain of 1-4 defer_tick()/defer_tick_lazy() mixed with stateless and stateful ('tick / 'static) operators and observation sinks, in 2 of 5 programs closed into a decaying feedback cycle through a deferred edge. Steps driven by run_available_sync must execute exactly the predicted number of ticks: another tick while a non-lazy deferred buffer is non-empty at the end of a tick, none for lazy-only data.",
+            &["avail_extra_ticks", "avail_stopped_with_lazy_pending", "defer_delivered", "lazy_defer_delivered"],
+        ),
+        "C25" => (
+            "Each scenario is one generated DFIR program with 1-2 shared states held by a handoff (fold -> singleton(), reduce -> optional(), handoff()) produced by a same-tick pipeline of depth 0-3, and 2-4 access groups per state of closures reading (`#{g} name`) or updating (`#{g} mut name`) it, declared in shuffled textual order; every closure logs (group, item, value seen). Oracle: the log of a tick is grouped in access-group order, every closure saw the value the interpreter predicts (producer settled, all earlier groups applied), and the sinks agree.",
+            &["ref_write"],
+        ),
+        "C26" => (
+            "Each scenario is one DFIR program instantiated from a parametrised loop template (root-level loop gating on batch(); two independent root-level loops; batch() + batch_lazy() entries; root-level loop with a defer_tick/defer_tick_lazy feedback edge; nested loop with a decaying defer_tick feedback — the documented 1 -> 10 -> 100 pattern generalised — leaving through sinks or all_iterations(); lazy entries of nested loops), with random stateless operators, fan-in and exits. Per-tick sink outputs are compared as multisets (the documentation leaves the split of a batch over iterations open).",
+            &["nested_loop_iterated", "root_loop_not_fired", "root_loop_fired"],
+        ),
+        _ => ("", &[]),
     };
-    Meta { rule, real: REAL, stubs: STUBS, assumptions: ASSUME, required_probes: &[] }
+    let rule: &'static str = Box::leak(format!("{head}{SCHED}").into_boxed_str());
+    Meta { rule, real: REAL, stubs: STUBS, assumptions: ASSUME, required_probes: probes }
 }
